@@ -9,7 +9,7 @@ import ast
 
 from ..engine import rule
 from ..model import Undecided
-from ..cfg import same, dotted, call_name, is_call, simple_name, unparse, const_value, contains, enclosing, implied
+from ..cfg import same, cexpr, dotted, call_name, is_call, simple_name, unparse, const_value, contains, enclosing, implied
 from ..flow import Canon, Defs, depends, expand, names_in, try_const
 from ..util import keyword, returns_of, calls_in, inside, order_key
 
@@ -100,7 +100,7 @@ def c08a(ctx):
                           unparse(x.func), g.path(0, node, skip_edges=edges) if node is not None else '?'))
             if meta and kind == 'fetch':
                 # the re-check covers all tiles of the meta tile (C13.d)
-                alls = [at for s, d, test, pol in g.branch_edges() for at, p in implied(test, pol)
+                alls = [at for s, d, test, pol in g.branch_edges() for at, p in implied(cexpr(test), pol)
                         if cached_atom(at) and p is False]
                 ok = any(at.mentions(lambda y: is_call(y, 'all')) and
                          at.mentions(lambda y: isinstance(y, ast.Attribute) and y.attr == 'tiles') for at in alls)
@@ -145,7 +145,7 @@ def c08b(ctx):
                           'for the same meta tile can take different locks' % (
                               unparse(call.args[0]), sorted(foreign) or ('self' if uses_self else 'nothing of the meta tile')))
         # re-check iterates the same meta tile
-        tests = [n.test for n in fn.walk_all() if isinstance(n, ast.If) and contains(n.test, lambda x: is_call(x, 'is_cached'))]
+        tests = [cexpr(n.test) for n in fn.walk_all() if isinstance(n, ast.If) and contains(n.test, lambda x: is_call(x, 'is_cached'))]
         ok = bool(tests) and all(contains(t, lambda x: isinstance(x, ast.Attribute) and x.attr == 'tiles' and
                                           isinstance(x.value, ast.Name) and x.value.id == param) for t in tests)
         ctx.check(ok, fn.short + ':recheck-same-meta-tile', 'the re-check iterates meta_tile.tiles of the locked meta tile', fn)
